@@ -200,7 +200,11 @@ class SyntaxCheckInstance(Visitor):
     def _visit_call(self, e: Call, ctx: _Ctx):
         match e.func:
             case Var():
-                self._mark_use(e.func.name, ctx.env, ignore_missing=self.ignore_unknown)
+                # an unknown callee may be a name of the enclosing Python
+                # scope; one the function binds itself is a variable like any
+                # other and has to be defined on every path to the call
+                local = e.func.name in ctx.env
+                self._mark_use(e.func.name, ctx.env, ignore_missing=self.ignore_unknown and not local)
             case Attribute():
                 self._visit_attribute(e.func, _Ctx(ctx.env, True))
             case _:
